@@ -206,6 +206,23 @@ impl Property for C06 {
                 push(&mut groups, rng.urange(1, 50), rng.urange(1, 200), &mut cost);
             }
         }
+        if rng.chance(1, 40) {
+            // beyond the kernel's 6 MiB ceiling: a large finite (or unlimited) stack limit and
+            // more input than one command line can ever hold, in arguments long enough to
+            // keep the count small
+            let l = rng.urange(500, 3000);
+            let total = (6 << 20) + rng.urange(100_000, 1_500_000);
+            return Sc {
+                opts: vec![],
+                groups: vec![(total / (l + 9) + 1, l)],
+                nul: rng.chance(1, 3),
+                rlimit_stack: Some(*rng.pick(&[32u64 << 20, 64 << 20, 1 << 30, u64::MAX])),
+                env_vars: rng.urange(0, 30),
+                env_val_len: rng.urange(0, 50),
+                initial: vec![],
+                replace: false,
+            };
+        }
         if rng.chance(1, 6) {
             // replace mode: the command line that is run is built by substitution, so its size
             // is a multiple of the line length; aim at the per-argument limit and at the budget
